@@ -219,7 +219,11 @@ type Env struct {
 
 // NewEnv builds the real facade over a fresh logging client holding objs.
 func NewEnv(s Settings, objs ...client.Object) *Env {
-	dir, err := os.MkdirTemp("", "xns")
+	base := ""
+	if st, err := os.Stat("/dev/shm"); err == nil && st.IsDir() {
+		base = "/dev/shm" // scratch files only: keep them off the disk
+	}
+	dir, err := os.MkdirTemp(base, "xns")
 	must(err)
 	for _, d := range []string{"crt", "cacrt", "crl", "dh"} {
 		must(os.MkdirAll(filepath.Join(dir, d), 0o755))
